@@ -29,9 +29,9 @@ import (
 )
 
 // c23Scheduling: JSON parser worker-pool scheduling half of C23 (every feasible delivery order of the
-// parsed batches, driven through hook H2). NOT IMPLEMENTED HERE - owned by the H2 work item.
+// parsed batches, driven through hook H2).
 func c23Scheduling(r *findings.Run) {
-	// intentionally empty
+	c23SchedulingImpl(r) // see c23sched.go
 }
 
 // ---------------------------------------------------------------- value model
@@ -1432,7 +1432,7 @@ func init() {
 			"an empty CSV file and lines longer than the 64 KiB scanner limit may be rejected with an error (counted as rejected); returning fewer rows with exit 0 is a violation",
 			"a parquet LIST column may be returned as a list [x,...] or in its physical shape {list:[{element:x},...]} (the vendored parquet reader does not expose the LIST annotation of groups read from a file)",
 			"a run of the in-process worker that hangs or crashes is repeated once with the real binary and judged on that result (machine overload must not become a finding)",
-			"JSON worker scheduling (hook H2) is not part of this run: c23Scheduling is a stub",
+			"JSON worker scheduling: hook H2 holds every parsed batch until released; the pool takes jobs FIFO, so the held set is a function of the release history",
 		)
 		byKind := map[string]int{}
 		for _, c := range cases {
